@@ -409,6 +409,9 @@ func runC20(c *Ctx) {
 		c.accumulateRule("C20.carry", graphReopen)
 	}
 	c.ruleNoFlatten("C20.carry")
+	// "every node of every currently registered pipeline": the chain stored at registration links
+	// every listed node (a chain cut short is never walked by Reopen either)
+	c.ruleLink("C20.link")
 	// all-nil path returns nil: Reopen's final return is the nil constant
 	hasNil := false
 	for _, ret := range Returns(reopen) {
